@@ -58,7 +58,8 @@ def required(tier):
            'threads:other-thread-sees-and-cannot-replace-the-active-configuration',
            'threads:configuration-loaded-in-another-thread-is-active-here',
            'overlay:list-valued-setting-in-file-and-kwargs',
-           'questionable-load:with-warnings-as-errors', 'paths:relative-to-working-directory']
+           'questionable-load:with-warnings-as-errors', 'paths:relative-to-working-directory',
+           'mutate:any-public-attribute:refused', 'mutate-any:config.emissions.enabled_species']
     return {'classes': cl, 'evaluations': 5000}
 
 
@@ -520,6 +521,46 @@ class Machine:
              lambda: setattr(Config.get().weather, 'weather_data_dir', Path('/nowhere'))),
             ('del proxy.emissions.fuel', lambda: delattr(Config.get().emissions, 'fuel')),
         ]
+        # ... and EVERY public attribute of the configuration and of its nested settings
+        # (fields, properties, derived / cached values), by assignment and by deletion
+        if self.state is not None and rng.random() < 0.6:
+            cfg_ = Config.get()
+            holders = [('config', cfg_), ('config.emissions', cfg_.emissions),
+                       ('config.weather', cfg_.weather)]
+            hname, obj = rng.choice(holders)
+            names = [a for a in dir(type(obj)) if not a.startswith('_')
+                     and not callable(getattr(type(obj), a, None))
+                     and a not in ('model_fields', 'model_computed_fields', 'model_config',
+                                   'model_extra', 'model_fields_set')]
+            names += [a for a in getattr(type(obj), 'model_fields', {}) if a not in names]
+            attr = rng.choice(sorted(names))
+            try:
+                before = repr(getattr(obj, attr))
+            except Exception:  # noqa: BLE001
+                before = None
+            how = rng.choice(['assign', 'assign', 'delete'])
+            self.log.append(('mutate-any', hname, attr, how))
+            try:
+                if how == 'assign':
+                    setattr(obj, attr, rng.choice([None, 0, set(), 'x', []]))
+                else:
+                    delattr(obj, attr)
+                accepted = True
+            except Exception:  # noqa: BLE001
+                accepted = False
+            try:
+                after = repr(getattr(obj, attr))
+            except Exception:  # noqa: BLE001
+                after = None
+            self.rec.ev()
+            if accepted or after != before:
+                self.fail('an attribute assignment on the configuration was accepted',
+                          target=f'{hname}.{attr}', how=how, before=str(before)[:80],
+                          after=str(after)[:80])
+            self.rec.cls('mutate:any-public-attribute:refused',
+                         f'mutate-any:{hname}.{attr}')
+            self.observe(f'after mutation attempt {hname}.{attr}')
+            return
         name, fn = rng.choice(targets)
         self.log.append(('mutate', name))
         try:
